@@ -1,6 +1,6 @@
 /-
   Model of the byte and line layer of the iCalendar push parser in src/evical.c:
-  `esccpy` (unfold / unescape copy into the 1024-byte stash), `_ical_pull` (line chopping, the
+  `esccpy` (unfold / unescape copy into the stash, which grows), `_ical_pull` (line chopping, the
   newline-seen mark, over-long input), the component state machine of `_ical_proc` (which lines open and
   close VCALENDAR / VEVENT / VTODO / other components, when an instruction is complete, when the
   parser gives up), `echs_evical_push` / `pull` / `last_pull` and the callers' protocol
@@ -21,7 +21,6 @@ def CR : Byte := 13
 def SP : Byte := 32
 def TAB : Byte := 9
 def BSL : Byte := 92
-def stashSize : Nat := 1024
 
 /-- `esccpy(tgt, tz, src, sz)`: returns the bytes appended (`none` = the copy overran `tz`, the C function
 returns 0) and the byte it leaves at `tgt[n]` (the terminator position; 0 in both cases). -/
@@ -150,8 +149,10 @@ def doProc (p : Parser) : Parser × PRes :=
   ({ p with comp := c, stash := [], log := p.log ++ [line.takeWhile (· ≠ 0)] }, r)
 
 /-- `_ical_pull`; `fuel` bounds the `goto chop_more` loop (every round consumes at least one byte or returns).
-A line that does not fit the stash (`esccpy` says so) sets `skip`: nothing more of it is copied, and at its end it is
-dropped instead of being handed to `_ical_proc`, whatever the chunks were. -/
+The stash grows with the lines (`stashcpy`: room for `six + sz + 1` bytes is made before `esccpy` runs, which never
+writes more than it reads), so `esccpy` is handed `sz + 1` bytes of room or more and its result does not depend on how
+much more.  `skip` (the line under way is passed over, whatever the chunks were) is what the C code falls back to when
+`realloc` fails; allocation failure is not modelled, the branch is kept for the shape of the code. -/
 def pull : Nat → Parser → Parser × PullRes
   | 0, p => (p, .need)
   | fuel+1, p =>
@@ -174,13 +175,12 @@ def pull : Nat → Parser → Parser × PullRes
       let p := if marked then { p with bix := p.bix + 1 } else p      -- the folding whitespace
       let b := p.buf.drop p.bix
       let bz := b.length
-      let six := p.stash.length
       let eol := findEol b (bz + 1) 0
       let noEol : Bool := match eol with | none => true | some e => decide (e ≥ bz)
       if noEol then
         -- the end of the buffer in the middle of a line: to the stash with what there is, without the folds
         let p := if p.skip then p else
-          match esccpy (stashSize - six) b with
+          match esccpy (b.length + 1) b with
           | (some o, _) => { p with stash := p.stash ++ o, sentinel := 0 }
           | (none, _) => { p with skip := true, stash := [] }
         ({ p with eolp := p.eolp || eol.isSome, bix := p.buf.length }, .need)   -- `BI = p->bsz`: the buffer is used up
@@ -188,7 +188,7 @@ def pull : Nat → Parser → Parser × PullRes
         let llen := eol.getD 0
         let p := { p with bix := p.bix + llen }
         let p := if p.skip then p else
-          match esccpy (stashSize - six) (b.take llen) with
+          match esccpy ((b.take llen).length + 1) (b.take llen) with
           | (some o, _) => { p with stash := p.stash ++ o, sentinel := 0 }
           | (none, sent) => { p with skip := true, sentinel := sent }
         proc p
